@@ -235,6 +235,14 @@ class FakeHidDevice:
             # a new command: anything left from an earlier exchange is stale - except
             # after a late answer (Fault "late"): input reports the host never read stay in
             # the HID queue, exactly as with hidapi, and are read before the new answer
+            if getattr(self, "_ready_at", None) is not None and self._queue:
+                # a delayed answer the host did not wait for: it is (or will be) on the
+                # HID queue ahead of whatever answers this new command
+                self._desync = True
+                self._stale = list(getattr(self, "_stale", [])) + list(self._queue)
+                self._queue = []
+                self.bus.log("delayed-answer-abandoned-by-host")
+            self._ready_at = None
             if getattr(self, "_desync", False):
                 self._queue = list(self._queue) + list(getattr(self, "_stale", []))
                 self._stale = []
@@ -249,6 +257,10 @@ class FakeHidDevice:
             idx, fault = self.bus.begin()
             if fault is None and len(body) > 1:
                 fault = self.bus.cmd_fault(body[1], body[2] if len(body) > 2 else None)
+            slow = getattr(self.bus, "slow_cmds", None)
+            if fault is None and slow and len(body) > 1 and (body[1] in slow or "*" in slow):
+                # a slow device: every answer to that command takes that long
+                fault = Fault("delay", n=slow.get(body[1], slow.get("*")))
             self._cur = (idx, fault)
             self._drop = False
             if fault is not None and fault.kind == "write_error":
@@ -275,7 +287,13 @@ class FakeHidDevice:
             else:
                 d, sw = res
                 framed = _frame_response(bytes(d) + struct.pack(">H", sw))
-                if fault is not None and fault.kind == "late":
+                if fault is not None and fault.kind == "delay":
+                    # the answer takes fault.n seconds (virtual) to arrive: in time if the
+                    # host waits that long, otherwise it is a late answer (still queued)
+                    self._queue = framed
+                    self._ready_at = self.bus.clock.time() + fault.n
+                    self.bus.log("delayed-answer", seconds=fault.n)
+                elif fault is not None and fault.kind == "late":
                     # the answer arrives after the host has given up on it
                     self._stale = list(getattr(self, "_stale", [])) + framed
                     self._desync = True
@@ -292,6 +310,11 @@ class FakeHidDevice:
             raise OSError("read error")
         if getattr(self, "_hold", False):
             return []        # nothing arrives before the host's time-out
+        if getattr(self, "_ready_at", None) is not None:
+            if self.bus.clock.time() < self._ready_at:
+                return []    # not yet
+            if not self._queue:
+                self._ready_at = None
         if self._queue:
             return list(self._queue.pop(0))
         return []
